@@ -1,6 +1,6 @@
 (* C11 - deletion removes exactly the requested objects; repack reclaims their space.  Statements only (partial). *)
 From Coq Require Import List ZArith NArith.
-From DOS Require Import Base Store StoreProofs StoreLemmas MonoStep Programs ProgramsProofs PackProofs MaintProofs RepackProofs.
+From DOS Require Import Base Store StoreProofs StoreLemmas MonoStep Programs ProgramsProofs PackProofs MaintProofs RepackProofs AddPackProofs ImportProofs C13Proofs C02Proofs History.
 Import ListNotations.
 
 Section C11.
@@ -45,6 +45,20 @@ Theorem C11_repack_removes_empty_pack : forall w l id fs m,
   Inv H inflate w -> rows_of_pack (db w) id = [] ->
   Good H inflate w fs (fst (run_events (w, l) (firstn m (p_repack_one w id [])))).
 Proof. intros w l id fs m A B. exact (repack_empty_always H inflate H_inj w l id fs A B m). Qed.
+(* deletion is EXACT: every key that was not requested reads back exactly as before, present or absent (the requested ones are gone:
+   C11_delete_program) *)
+Theorem C11_delete_changes_nothing_else : forall w l ks k,
+  Inv H inflate w -> pending l = [] -> ~ In k ks ->
+  stored inflate (crash (run_events (w, l) (p_delete w ks))) k = stored inflate w k.
+Proof. intros w l ks k HI Hp Hn. exact (delete_exact H inflate w l ks k HI Hp Hn). Qed.
+
+(* the completed repack of a pack (live objects re-encoded or not, or the removal of a pack without live objects) changes what NO key
+   reads back as, in either direction, and leaves the invariant in place *)
+Theorem C11_repack_changes_no_view : forall w l id objs,
+  Inv H inflate w -> pending l = [] -> pre H inflate w (ORepack id objs) ->
+  Inv H inflate (fst (run_events (w, l) (p_repack_one w id objs))) /\
+  forall k, stored inflate (fst (run_events (w, l) (p_repack_one w id objs))) k = stored inflate w k.
+Proof. exact (repack_exact H inflate H_inj). Qed.
 End C11.
 Print Assumptions C11_delete_program.
 Print Assumptions C11_repack_reclaims.
@@ -71,3 +85,5 @@ Print Assumptions C11_repack_keeps_keys_update.
 Print Assumptions C11_repack_keeps_keys_repoint.
 Print Assumptions C11_unlink_removes_only_that_key.
 Print Assumptions C11_unlink_removes_that_key.
+Print Assumptions C11_delete_changes_nothing_else.
+Print Assumptions C11_repack_changes_no_view.
